@@ -25,9 +25,10 @@ TRUSTED = ['Lean 4.33 kernel', 'axioms: propext, Classical.choice, Quot.sound', 
            'the irrep-block encoding of the extension constraints, PureBosonicExt reduction (C17), optimiser convergence']
 
 DIMS = [(2, 2), (2, 3), (3, 3), (2, 4)]
-# residual allowed for quantities that come out of the LP solver (CLARABEL via cvxpy): observed |sum(lambda)-1| up to 3.5e-6 and
-# LP-point deviation up to 1.3e-6 over ~150 solves with the short iteration counts used here; a modelling error is O(1e-1)
-LP_TOL = 5e-5
+# residual allowed for quantities that come out of the LP solver (CLARABEL via cvxpy, short iteration counts): observed on the unchanged
+# tree over ~400 solves: |sum(lambda)-1| up to 5.5e-5 (quick seed 5), LP-point deviation up to 1.7e-5; 1e-6 and 5e-5 both gave a false
+# alarm.  A modelling error (wrong rows, conjugated certificate, wrong normalisation) is O(1e-1).
+LP_TOL = 5e-4
 # residual allowed for the SDP boundary lengths: the installed solver's error, measured on quantities whose exact value is known
 # (beta_1ext = beta_DM, beta_1ext+PPT = beta_PPT), has median 1e-7 but a tail up to 1.8e-5 (~400 solves, dims (2,2),(2,3),(3,3)); the 1e-5
 # of the design gave false alarms on the unchanged tree (quick seed 2, thorough seeds 2,4,5).  A nesting bug is O(1e-2).
